@@ -808,6 +808,14 @@ impl Runner for LimiterRunner {
                     if o != expect_kind {
                         out.push(format!("!MON C18 exempt-dropped ip={} port={} got={:?}", i, port, o));
                     }
+                    // an awaited answer is not unsolicited traffic: it is not charged to any quota, so
+                    // it cannot get its sender banned
+                    let after = fx::permit_ban_snapshot();
+                    let new_ip_ban = !ip_ban && after.ban_ips.iter().any(|(k, _)| *k == ip);
+                    let new_node_ban = *kind == "m" && !n_ban && after.ban_nodes.iter().any(|(k, _)| *k == node);
+                    if new_ip_ban || new_node_ban {
+                        out.push(format!("!MON C18 exempt-datagram-got-sender-banned ip={} node={}", i, ni));
+                    }
                 } else if ip_permit && (*kind != "m" || n_permit) {
                     stats.bump("lrin.permitted");
                     if o != expect_kind {
